@@ -10,8 +10,11 @@ for mp in sorted(glob.glob(os.path.join(HERE, 'seeded', '*', 'meta.json'))):
     ck = m['checks'].get(target, {})
     others = sorted(k.split('/')[0] for k, v in m['checks'].items()
                     if v.get('caught') and k != target)
+    bs = ck.get('by_seed') or {}
+    seeds = ' (seeds ' + ','.join(k if v else k + ':missed' for k, v in sorted(bs.items())) + ')' \
+        if bs else ''
     rows.append((name, m['property'], m['needs'], ck.get('caught'), ck.get('first_violation') or '',
-                 others, m.get('history', '')))
+                 others, m.get('history', ''), seeds))
 with open(os.path.join(HERE, 'SEEDED.md'), 'w') as f:
     f.write('# Seeded changes (independent sub-agents) and the checks that catch them\n\n'
             'Each change was written by a fresh sub-agent that saw only the property text and a '
@@ -20,9 +23,10 @@ with open(os.path.join(HERE, 'SEEDED.md'), 'w') as f:
             'check of the target property against /repo HEAD + patch. Details per change: '
             'seeded/<id>/meta.json.\n\n'
             '| id | needs, in order to manifest | caught by target check (quick) | first violation reported | also caught by | history |\n|---|---|---|---|---|---|\n')
-    for name, prop, needs, caught, first, others, hist in rows:
+    for name, prop, needs, caught, first, others, hist, seeds in rows:
         f.write('| %s | %s | %s | %s | %s | %s |\n' % (
-            name, needs.replace('|', '/'), 'yes' if caught else ('NO' if caught is False else '-'),
+            name, needs.replace('|', '/'),
+            ('yes' if caught else ('NO' if caught is False else '-')) + seeds,
             first.replace('|', '/')[:140], ' '.join(others), hist))
 print('SEEDED.md: %d changes, %d caught' % (len(rows), sum(1 for r in rows if r[3])))
 sj = os.path.join(HERE, 'out', 'sensitivity_full.json')
